@@ -86,6 +86,15 @@ type c53Case struct {
 	NVals       int      `json:"nvals"`
 	Indent      bool     `json:"indent"`
 	Invalid     string   `json:"invalid,omitempty"` // "" | signerinfo-collision | initial-height-mismatch | gas-mode
+	Big         *c53Big  `json:"big,omitempty"`
+}
+
+// c53Big is one genesis tx padded so that its compact JSON encoding (one line
+// of the streaming cache) is exactly Line bytes long.
+type c53Big struct {
+	Kind string `json:"kind"` // readme: realm deployment with a padded README.md | memo: bank send with a padded memo
+	Line int    `json:"line"` // length of the element's JSON encoding in bytes
+	Pos  int    `json:"pos"`  // 0 first, 1 middle, 2 last among the genesis txs
 }
 
 const c53ChainID = "verif-g53"
@@ -201,6 +210,17 @@ func c53Draw(rt *rapid.T) c53Case {
 	c.Past = rapid.Bool().Draw(rt, "past")
 	c.GasMode = rapid.SampledFrom([]string{"", "", "strict", "source"}).Draw(rt, "gasmode")
 	c.NVals = rapid.IntRange(0, 2).Draw(rt, "nvals")
+	// element-size family: one tx whose JSON line sits at a common buffer boundary
+	if rapid.IntRange(0, 2).Draw(rt, "big?") != 0 {
+		bounds := []int{4 << 10, 64 << 10, 64 << 10, 1 << 20, 1 << 20, 1 << 20, 2<<20 + 300_000, 4 << 10}
+		offs := []int{-1, 0, 1, 17, -4096, 4096}
+		b := &c53Big{Kind: []string{"readme", "memo"}[rapid.IntRange(0, 1).Draw(rt, "bigkind")], Pos: rapid.IntRange(0, 2).Draw(rt, "bigpos")}
+		b.Line = bounds[int(rapid.Uint8().Draw(rt, "bigbound"))%len(bounds)] + offs[int(rapid.Uint8().Draw(rt, "bigoff"))%len(offs)]
+		if b.Line < 2048 {
+			b.Line = 2048
+		}
+		c.Big = b
+	}
 	c.Indent = rapid.Bool().Draw(rt, "indent")
 	// (rapid favours the ends of a range: the rarer classes sit in the middle)
 	switch rapid.IntRange(0, 19).Draw(rt, "ih") {
@@ -334,6 +354,25 @@ func c53Build(c c53Case) *bft.GenesisDoc {
 			tm.Metadata = &gnoland.GnoTxMetadata{}
 		}
 		gs.Txs = append(gs.Txs, tm)
+	}
+	if c.Big != nil {
+		mk := func(pad int) gnoland.TxWithMetadata {
+			k := keys[0]
+			padding := strings.Repeat("x", pad)
+			tx := std.Tx{Fee: std.Fee{GasWanted: 2_900_000_000, GasFee: std.NewCoin("ugnot", 100_000_000)}, Signatures: []std.Signature{{}}}
+			if c.Big.Kind == "memo" {
+				tx.Msgs = []std.Msg{bank.MsgSend{FromAddress: k.Addr, ToAddress: keys[1].Addr, Amount: std.Coins{std.NewCoin("ugnot", 5)}}}
+				tx.Memo = padding
+			} else {
+				tx.Msgs = []std.Msg{ec.AddPkg(k.Addr, "gno.land/r/g53/big", map[string]string{"a.gno": fmt.Sprintf(c53Realm, "big", 7), "README.md": "# big\n" + padding + "\n"}, nil)}
+			}
+			return gnoland.TxWithMetadata{Tx: tx}
+		}
+		// pad so that the element's compact JSON is exactly Line bytes ('x' is one byte in JSON)
+		base := len(amino.MustMarshalJSON(mk(0)))
+		big := mk(max(0, c.Big.Line-base))
+		at := map[int]int{0: 0, 1: len(gs.Txs) / 2, 2: len(gs.Txs)}[c.Big.Pos%3]
+		gs.Txs = append(gs.Txs[:at], append([]gnoland.TxWithMetadata{big}, gs.Txs[at:]...)...)
 	}
 	if c.Invalid == "signerinfo-collision" {
 		mk := func(k ec.Key, h int64) gnoland.TxWithMetadata {
@@ -570,6 +609,17 @@ func c53Exec(ctx *vk.Ctx, c c53Case) error {
 	ctx.ClassIf(nFail > 0, "has-failed-genesis-tx")
 	ctx.ClassIf(c.DocIH > 1 && c.Invalid == "", "initial-height>1")
 	ctx.ClassIf(len(c.RealmParams) > 0, "realm-params")
+	if c.Big != nil {
+		ctx.ClassIf(c.Big.Line >= 64<<10, "element>=64KiB")
+		ctx.ClassIf(c.Big.Line >= 1<<20, "element>=1MiB")
+		ctx.ClassIf(c.Big.Line < 64<<10, "element~4KiB")
+		ctx.Class("big-element/" + c.Big.Kind + "/pos=" + strconv.Itoa(c.Big.Pos%3))
+		at := map[int]int{0: 0, 1: len(c.Txs) / 2, 2: len(c.Txs)}[c.Big.Pos%3]
+		if ok && at < len(m1.Txs) {
+			ctx.ClassIf(m1.Txs[at].OK(), "big-element-tx-succeeded")
+			ctx.ClassIf(!m1.Txs[at].OK(), "big-element-tx-failed")
+		}
+	}
 	for _, t := range c.Txs {
 		ctx.Class("meta=" + strconv.Itoa(t.Meta))
 	}
@@ -613,7 +663,7 @@ func c53Exec(ctx *vk.Ctx, c c53Case) error {
 func TestC53_GenesisModes(t *testing.T) {
 	vk.Run(t, vk.Spec[c53Case]{
 		ID: "C53", Name: "TestC53_GenesisModes",
-		Rule: "rapid: a genesis document (1-9 balance entries over 6 addresses with repeats, multi-denom and empty amounts, continuous/delayed vesting; 0-7 genesis txs: realm deployments incl. duplicates and type errors, realm calls incl. panics and chain/params writes, bank sends incl. unfunded, MsgRun; tx metadata: none, timestamp, historical height with known/unknown chain id, failed flag, signer info, empty; auth/bank/vm params, typed realm params, past chain ids, gas replay mode, 0-2 validators, initial height at document and app level, indented or compact file) applied in memory twice and streamed from disk twice (cold and warm cache); plus an invalid-genesis class (signer-info collision, initial-height mismatch, unknown gas replay mode); non-trivial = at least one genesis tx was delivered or the genesis is of the invalid class",
+		Rule: "rapid: a genesis document (1-9 balance entries over 6 addresses with repeats, multi-denom and empty amounts, continuous/delayed vesting; 0-7 genesis txs: realm deployments incl. duplicates and type errors, realm calls incl. panics and chain/params writes, bank sends incl. unfunded, MsgRun; tx metadata: none, timestamp, historical height with known/unknown chain id, failed flag, signer info, empty; auth/bank/vm params, typed realm params, past chain ids, gas replay mode, 0-2 validators, initial height at document and app level, indented or compact file; in 2/3 of the cases one extra tx - a realm deployment with a padded README.md or a bank send with a padded memo - whose JSON element is exactly 4 KiB, 64 KiB, 1 MiB or 2.3 MiB long -1/+0/+1/+17/-4096/+4096 bytes, placed first, in the middle or last) applied in memory twice and streamed from disk twice (cold and warm cache); plus an invalid-genesis class (signer-info collision, initial-height mismatch, unknown gas replay mode); non-trivial = at least one genesis tx was delivered or the genesis is of the invalid class",
 		Draw: c53Draw,
 		Exec: c53Exec,
 	})
